@@ -231,7 +231,9 @@ func (f *InterestNameField) GenEncodeInto() (string, error) {
 func (f *InterestNameField) GenReadFrom() (string, error) {
 	var g strErrBuf
 
-	g.printlnf("{")
+	g.printlnf("if l > enc.TLNum(reader.Length()-reader.Pos()) {")
+	g.printlnf("err = io.ErrUnexpectedEOF")
+	g.printlnf("} else {")
 
 	g.execTemplS("NameEncodeInto", `
 		value.{{.Name}} = make(enc.Name, l/2+1)
